@@ -1,6 +1,6 @@
 """C18 - results reflect the object's current contents, not earlier calls (E2: operation-history explorer).
 
-Every sequence of operations up to depth d over a 25-operation alphabet (accessor calls, in-place edits, watershed
+Every sequence of operations up to depth d over a 26-operation alphabet (accessor calls, in-place edits, watershed
 calls on other shapes / other objects, a reader call) is executed on freshly built objects in a freshly forked child
 (so no hidden state leaks between histories); afterwards an observation battery is compared with the same battery
 computed in a FRESH INTERPRETER on a freshly constructed object with the same contents.
@@ -22,11 +22,12 @@ LEVEL = "model_checking"
 
 FREQ1 = np.array([0.05, 0.07, 0.1, 0.14, 0.2])
 FREQ2 = np.array([0.06, 0.08, 0.11, 0.15, 0.21])
+FREQ3 = np.array([0.05, 0.085, 0.12, 0.16, 0.2])   # the length and end points of FREQ1, another interior: a summary of the axis cannot tell them apart
 DIR1 = np.arange(8) * 45.0
 DIR2 = np.arange(8) * 22.5 + 10.0  # same size, other spacing: the bin width changes
 OPS = ["hs", "tp", "dd", "smooth", "crsd", "stats_unknown", "set_efth", "set_ds_dir", "set_da_dir", "set_freq",
        "ws_shapeA", "ws_shapeB", "other_object", "reader", "efth_values_inplace", "coords_dir", "coords_freq", "da_values_inplace",
-       "observe_all", "ws_shapeT", "ws_empty", "reader_edit", "fit_with_empty", "set_lonlat", "lonlat_values_inplace"]
+       "observe_all", "ws_shapeT", "ws_empty", "reader_edit", "fit_with_empty", "set_lonlat", "lonlat_values_inplace", "ptm12_twin_grid"]
 EDITS = {"set_efth": 0, "set_ds_dir": 1, "set_da_dir": 2, "set_freq": 3, "efth_values_inplace": 0, "coords_dir": 1, "coords_freq": 3, "da_values_inplace": 4,
          "set_lonlat": 5, "lonlat_values_inplace": 5}
 NCONTENT = 6
@@ -113,6 +114,11 @@ def apply_op(op, ds, da, env):
         nf, nd = {"ws_shapeA": (3, 4), "ws_shapeB": (4, 5), "ws_shapeT": (len(DIR1), len(FREQ1))}[op]
         z = (np.arange(nf * nd, dtype=float).reshape(nf, nd) * 7 % 11) + 1.0
         np_ptm3(z, z, 0.05 * 1.2 ** np.arange(nf), np.arange(nd) * (360.0 / nd), parts=3, ihmax=50)
+    elif op == "ptm12_twin_grid":
+        # wind-sea/swell partitions of another array whose frequency axis shares length, first and last value (and depth) with the observed one
+        o = xr.DataArray(efth(2).copy(), dims=["site", "freq", "dir"], coords={"site": [1, 2], "freq": FREQ3.copy(), "dir": DIR1.copy()}, name="efth")
+        o.spec.partition.ptm1(wspd=12.0, wdir=90.0, dpt=30.0, swells=2).values
+        o.spec.partition.ptm2(wspd=12.0, wdir=90.0, dpt=30.0, swells=2).values
     elif op == "other_object":
         o = xr.DataArray(np.abs(np.sin(np.arange(3 * 6 * 12, dtype=float))).reshape(3, 6, 12) + 0.1, dims=["time", "freq", "dir"],
                          coords={"time": np.arange(3), "freq": 0.04 * 1.15 ** np.arange(6), "dir": np.arange(12) * 30.0}, name="efth")
@@ -192,6 +198,8 @@ def battery(ds, da):
     put("ds.spec.dd", ds.spec.dd)
     put("ds.spec.freq", ds.spec.freq)
     put("ds.spec.partition.ptm3", ds.spec.partition.ptm3(parts=2))
+    put("ds.spec.partition.ptm1(wind)", ds.spec.partition.ptm1(wspd=12.0, wdir=90.0, dpt=30.0, swells=2))
+    put("da.spec.partition.ptm2(wind)", da.spec.partition.ptm2(wspd=12.0, wdir=90.0, dpt=30.0, swells=2))
     # station selection with the dataset's own positions (the default dset_lons / dset_lats)
     put("ds.spec.sel(nearest).efth", ds.spec.sel([150.2], [-34.05], method="nearest").efth)
     put("ds.spec.sel(nearest).lon", ds.spec.sel([150.2], [-34.05], method="nearest").lon)
@@ -289,7 +297,7 @@ def classify_prefix(hist):
     for op in hist:
         if op in EDITS:
             kinds.add(op + ("-after-call" if called else ""))
-        elif op in ("ws_shapeA", "ws_shapeB", "ws_shapeT", "ws_empty", "other_object", "reader", "reader_edit", "fit_with_empty"):
+        elif op in ("ws_shapeA", "ws_shapeB", "ws_shapeT", "ws_empty", "other_object", "reader", "reader_edit", "fit_with_empty", "ptm12_twin_grid"):
             kinds.add("other-" + ("watershed" if op.startswith("ws") else op))
         else:
             called = True
@@ -332,7 +340,7 @@ def replay(case):
     return vs
 
 
-REDUCED = ["observe_all", "stats_unknown", "ws_shapeT", "ws_empty", "fit_with_empty"] + sorted(e for e in EDITS if e != "lonlat_values_inplace")
+REDUCED = ["observe_all", "stats_unknown", "ws_shapeT", "ws_empty", "fit_with_empty", "ptm12_twin_grid"] + sorted(e for e in EDITS if e != "lonlat_values_inplace")
 
 
 def histories(depth, tier):
@@ -353,8 +361,8 @@ def run(rep, tier, seed, parts=None):
     common.load_wavespectra()
     os.environ["C18_BATTERY"] = "light" if tier == "quick" else "full"
     depth = 3 if tier == "quick" else 4
-    rep.rule = ("all operation sequences up to depth %d over the 25-operation alphabet %s (quick: full alphabet to depth 2, depth 3 over a reduced 14-operation "
-                "alphabet with at least one edit, 21-observation battery incl. station selection with the dataset's own positions; thorough: full alphabet to depth 3, reduced alphabet with an edit at depth 4, 32-observation battery); each history runs on freshly built objects in a freshly "
+    rep.rule = ("all operation sequences up to depth %d over the 26-operation alphabet %s (quick: full alphabet to depth 2, depth 3 over a reduced 15-operation "
+                "alphabet with at least one edit, 23-observation battery incl. station selection with the dataset's own positions; thorough: full alphabet to depth 3, reduced alphabet with an edit at depth 4, 34-observation battery); each history runs on freshly built objects in a freshly "
                 "forked child and its battery is compared with a fresh interpreter's battery on a freshly constructed "
                 "object of the same contents. A state is (content, accessor/memo/global-table signature) after a history; transitions = "
                 "operations executed; traces = histories executed (the implementation itself is what runs)." % (depth, OPS))
